@@ -498,6 +498,7 @@ theorem C15_source_released (env : Env) (h : env.ratRepaired = true) (e : BufExp
     | cloneCopy e _ ih => exact ih
     | withErrorHandler e ih => exact ih
     | withTask e r ih => simp [leaks, ih, h]
+    | replicate e _ _ r ih => simp [leaks, ih, h]
   refine ⟨hl, ?_⟩
   simp only [closes, hl]
   cases baseKind e <;> simp
@@ -506,5 +507,42 @@ theorem C15_source_released (env : Env) (h : env.ratRepaired = true) (e : BufExp
 theorem D11_legacy_counterexample :
     closes { d := [8, 1], ratRepaired := false } (.withTask (.base .readerAt) (some 10)) = some 0 ∧
     closes { d := [8, 1], ratRepaired := true } (.withTask (.base .readerAt) (some 10)) = some 1 := ⟨rfl, rfl⟩
+
+/-! ### close first, then wait -/
+
+theorem blockedAt_events (dep : Nat → Bool) : ∀ (b : Buf) (rest : List Ev) (seen : List Nat),
+    ∃ seen', (∀ x ∈ seen, x ∈ seen') ∧ blockedAt dep (events b ++ rest) seen = blockedAt dep rest seen'
+  | .err _, rest, seen => ⟨seen, fun _ h => h, by simp [events]⟩
+  | .bytes _, rest, seen => ⟨seen, fun _ h => h, by simp [events]⟩
+  | .readerAt _, rest, seen => ⟨seen, fun _ h => h, by simp [events]⟩
+  | .stream _ _ _ _, rest, seen => ⟨seen, fun _ h => h, by simp [events]⟩
+  | .cloned _ _ _, rest, seen => ⟨seen, fun _ h => h, by simp [events]⟩
+  | .eh base _, rest, seen => by simp only [events]; exact blockedAt_events dep base rest seen
+  | .task base _ t _, rest, seen => by
+    obtain ⟨seen', hs, he⟩ := blockedAt_events dep base (.closed t :: .wait t :: rest) seen
+    refine ⟨t :: seen', fun x hx => List.mem_cons_of_mem _ (hs x hx), ?_⟩
+    simp only [events, List.append_assoc, List.cons_append, List.nil_append]
+    rw [he]
+    simp [blockedAt]
+
+/-- Every consuming call (and `Close` of a reader obtained from the buffer) closes what is
+underneath a task decorator before it waits for that task: whatever subset of the tasks can
+complete only after their reader was closed - in particular the tasks of `replicate`, which own
+the other handle of a stream clone -, the call never waits for a task that cannot complete. -/
+theorem C15_close_before_wait (dep : Nat → Bool) (b : Buf) : blockedAt dep (events b) [] = none := by
+  obtain ⟨seen', _, he⟩ := blockedAt_events dep b [] []
+  simpa [blockedAt] using he
+
+/-- the same for every program, the replication pattern included -/
+theorem C15_programs_close_before_wait (env : Env) (e : BufExpr) (dep : Nat → Bool) (b : Buf) (k : Nat)
+    (_ : build env e 0 = some (b, k)) : blockedAt dep (events b) [] = none :=
+  C15_close_before_wait dep b
+
+/-- Waiting first (the order `<-task.completion; r.r.Close()`) blocks for ever on the
+replication pattern; the program below yields the events in the right order. -/
+theorem wait_before_close_counterexample :
+    blockedAt (fun _ => true) [.wait 0, .closed 0] [] = some 0 ∧
+    (build { d := [8, 1] } (.replicate (.base (.chunks .good)) true .read none) 0).map (fun p => events p.1)
+      = some [.closed 0, .wait 0] := ⟨rfl, rfl⟩
 
 end BB.C15
